@@ -47,6 +47,20 @@ class StubInterface:
     def cemi_received(self, raw: bytes):
         self.xknx.cemi_handler.handle_raw_cemi(raw)
 
+    def _deliver_con(self, con: bytes, rec: dict[str, Any]):
+        """The confirmation and - when the bus model glued them to it - the peer's answers, in one receive callback
+        (two KNXnet/IP frames in one TCP segment / one stalled read)."""
+        def both():
+            self.R.record("cemi_in", "con", con.hex())
+            self.cemi_received(con)
+            for raw, label in rec.get("glued", ()):
+                self.R.record("cemi_in", label + "+glued", raw.hex())
+                self.cemi_received(raw)
+        if rec.get("glued"):
+            self.R.net.guard(both, where="cemi_received")
+        else:
+            self.deliver(con, "con")
+
     def deliver(self, raw: bytes, label: str = "frame"):
         """Hand a frame in as the interface would, guarded like a protocol callback."""
         self.R.record("cemi_in", label, raw.hex())
@@ -91,7 +105,7 @@ class StubInterface:
             if out == "exc":
                 raise ValueError("scripted unexpected failure")
             if ck == "after":
-                loop.after(float(b.get("con_d", 0.003)), lambda: self.deliver(con, "con"), label="con")
+                loop.after(float(b.get("con_d", 0.003)), lambda: self._deliver_con(con, rec), label="con")
             if self.on_send is not None:
                 self.on_send(raw, rec)
         finally:
